@@ -116,8 +116,9 @@ def specField (n : Nat) (es : List Edge) (s t : Nat) (f : String) : Option (Stri
       | none => pure ("flow", true, true)
   | ["mst", x] => do
       let (w, tr) ← parseTree? x
-      -- spanning-tree certificate (proved sound) and the reference minimum (search level)
-      pure ("mst", mstCheck vw w tr && w == (prim vw).1, false)
+      -- spanning-tree + cycle-property certificate (`C26_mst_minimal`: proved to imply minimum
+      -- weight), plus agreement with the model's Prim
+      pure ("mst", mstCheck vw w tr && mstMinCheck (edgesOf vw) w tr && w == (prim vw).1, false)
   | ["tri", k] => do
       let k ← k.toNat?
       -- the definition is cubic in n; above 64 nodes it is evaluated through the enumeration
